@@ -70,6 +70,7 @@ class Prop(object):
     object_histories = True        # see drive.HISTORY
     reparse_histories = True
     struct_inputs = True           # see drive.STRUCT
+    typed_inputs = True            # see drive.TYPED
 
     def gen(self, rng, ctx):
         raise NotImplementedError
@@ -92,8 +93,13 @@ class Prop(object):
         from rtverif import drive
         if not self.object_histories:
             return self.judge(case)
-        drive.begin_case(random.Random(zlib.crc32(repr(sorted(case.items(), key=lambda kv: kv[0])).encode())),
-                         reparse=self.reparse_histories, struct=self.struct_inputs)
+        import json
+        from rtverif.runner import jsonable
+        # (seeded by the JSON form of the case, so that the replay of a stored witness re-creates the prehistories)
+        canon = json.dumps(jsonable(self.brief(case)), sort_keys=True, default=str)
+        drive.begin_case(random.Random(zlib.crc32(canon.encode())),
+                         reparse=self.reparse_histories, struct=self.struct_inputs,
+                         typed=self.typed_inputs)
         try:
             v = self.judge(case)
             if v is not None and v.viol and drive.LAST_HISTORY:
